@@ -406,6 +406,21 @@ def run(prog, ctx):
     leaf = [r for r in R.return_paths(gp)[0] if tmg.term(r.ast.value) == ("list", ("tuple", ("n", gp.params[1]), ("n", pts)))]
     if not leaf:
         problems.append("a leaf does not return (area, points)")
+    # the public entry computes the assignment from the CURRENT tree on every call: it is the recursion started at self.root_cell with
+    # the given points, on every path, and it reads no other instance state (a remembered assignment would outlive the leaves it names)
+    ga = prog.func(ES + ".get_points_assignement_to_areas")
+    ctx.touch(ga)
+    tga = Terms(ga.node)
+    want_ret = ("call", ("a", ("n", ga.self_name), gp.name), (("a", ("n", ga.self_name), "root_cell"), ("n", ga.params[1])), ())
+    rets_ = R.return_paths(ga)
+    reads_ = {a_ for a_ in R.attr_reads(ga.node, ga.self_name)} - {"root_cell", gp.name}
+    stores_ = {s_.attr for s_ in R.self_stores(ga)}
+    ok_entry = bool(rets_[0]) and not rets_[1] and not rets_[2] and all(tga.term(r_.ast.value) == want_ret for r_ in rets_[0]) and not reads_ and not stores_
+    ctx.check(ok_entry, "C07.D6", R.key_of(ga, "assignment-from-current-tree"), ga.loc(),
+              "every call assigns the points by walking the current tree from self.root_cell",
+              "get_points_assignement_to_areas does not return get_points_in_areas_recursive(self.root_cell, points) on every path%s%s: points can be "
+              "assigned to areas of an earlier refinement state" % (" (also reads self.%s)" % sorted(reads_) if reads_ else "",
+                                                                     " (stores self.%s)" % sorted(stores_) if stores_ else ""))
     ctx.check(not problems, "C07.D6", R.key_of(gp, "one-leaf-per-point"), gp.loc(),
               "each point is handed to the first child containing it and removed from the candidates of the others",
               "assignment of evaluation points to leaves: " + "; ".join(problems))
@@ -445,6 +460,50 @@ def check_coarsening_siblings(prog, ctx):
                   "the %d version branches compute `%s` from the same quantities (they differ in constants only)" % (len(sts), name),
                   "the coarsening versions compute `%s` from different quantities: %s" % (name, [src(st.value)[:70] for st in sts]))
     ctx.floor("C07.D7", sum(len(v) for v in groups.values()), 2, "sibling coarsening conditions")
+    # a coarsening round that is admitted by comparing the budget with the NUMBER of dimensions at the maximum level lowers every one of
+    # them: the lowering loop over all dimensions has no early exit (the version-0 branch, which lowers one dimension per round and
+    # compares nothing with a count, does break)
+    c = cfg_of(cg)
+    counts = set()
+    for st in walk_local(cg.node):
+        # role of the counter: a local incremented by 1 inside a loop under an equality test
+        if isinstance(st, ast.AugAssign) and isinstance(st.op, ast.Add) and isinstance(st.target, ast.Name) and isinstance(st.value, ast.Constant) \
+                and st.value.value == 1 and R.enclosing_loops(st):
+            g_ = [g for (g, gn) in R.dominating_guards(cg, c.node_of(st), tm) if gn.kind == "test"]
+            if any(x[0] == "cmp" and x[1] == "Eq" for x in g_):
+                counts.add(st.target.id)
+    for st in walk_local(cg.node):
+        # ... or assigned from <list>.count(x) / sum(1 for ...) / len([... if ...])
+        if isinstance(st, ast.Assign) and len(st.targets) == 1 and isinstance(st.targets[0], ast.Name) and isinstance(st.value, ast.Call):
+            f_ = st.value.func
+            if (isinstance(f_, ast.Attribute) and f_.attr == "count") or (isinstance(f_, ast.Name) and f_.id in ("sum", "len") and st.value.args
+                                                                          and isinstance(st.value.args[0], (ast.GeneratorExp, ast.ListComp))):
+                counts.add(st.targets[0].id)
+    n_loops = 0
+    for loop in [l for l in walk_local(cg.node) if isinstance(l, ast.For)]:
+        lowers = [st for st in ast.walk(loop) if isinstance(st, ast.AugAssign) and isinstance(st.op, ast.Sub) and isinstance(st.target, ast.Subscript)
+                  and isinstance(st.target.slice, ast.Name) and isinstance(loop.target, ast.Name) and st.target.slice.id == loop.target.id]
+        if not lowers or tm.term(loop.iter) != ("call", ("n", "range"), (("a", ("n", cg.self_name), "dim"),), ()):
+            continue
+        # is this loop admitted by a test against a counter?  (guards of the loop itself, local flags resolved)
+        gl = [g for (g, gn) in R.dominating_guards(cg, c.node_of(loop), tm) if gn.kind == "test"]
+        names_ = {x[1] for g in gl for x in subterms(g) if x[0] == "n"}
+        for _round in range(2):                               # flags such as do_coarsen: look into ALL their definitions
+            for nm_ in list(names_):
+                for b_ in tm.env.bindings.get(nm_, []):
+                    if b_.kind == "assign" and b_.value is not None:
+                        names_ |= {y.id for y in ast.walk(b_.value) if isinstance(y, ast.Name)}
+        counted = bool(names_ & counts)
+        if not counted:
+            continue
+        n_loops += 1
+        exits = [x for x in ast.walk(loop) if isinstance(x, (ast.Break, ast.Return))]
+        ctx.check(not exits, "C07.D7", R.key_of(cg, "counted-round-lowers-all#%d" % n_loops), cg.loc(loop),
+                  "a round admitted by the count of maximal dimensions lowers all of them (no early exit)",
+                  "the loop at line %d lowers the dimensions at the maximum level in a round that was admitted by comparing the budget with "
+                  "their count, but leaves after the first one (`%s` at line %d): the remaining maximal dimensions keep their level and the "
+                  "coarsened grids of neighbouring component grids collide" % (loop.lineno, src(exits[0]) if exits else "", exits[0].lineno if exits else 0))
+    ctx.note("C07.D7", R.key_of(cg, "counted-rounds"), cg.loc(), "%d count-admitted lowering loop(s) analysed (counters: %s)" % (n_loops, sorted(counts)))
 
 
 def _update_sources_nonneg(prog, ctx, ro):
